@@ -281,9 +281,12 @@ SummaryTableIds(o) ==
 BadDirect(p, o, stored, direct, req) ==
   LET n == IF Len(stored) < Len(direct) THEN Len(stored) ELSE Len(direct)
       IsRec(a) == a.n \in {"BulkAddRecord", "BulkUpdateRecord", "BulkRemoveRecord"}
-      sums == SummaryTableIds(p) \cup SummaryTableIds(o)
-      AllFormula(a) == /\ a.n = "BulkUpdateRecord" /\ a.t \in DOMAIN o /\ DOMAIN a.c # {}
-                       /\ \A c \in DOMAIN a.c : c \in DOMAIN o[a.t].isf /\ o[a.t].isf[c]
+      \* tables that are summary tables before AND after the call (a table being detached or created in
+      \* this very call is not judged), columns that are formula columns before AND after
+      sums == SummaryTableIds(p) \cap SummaryTableIds(o)
+      AllFormula(a) == /\ a.n = "BulkUpdateRecord" /\ a.t \in DOMAIN o /\ a.t \in DOMAIN p /\ DOMAIN a.c # {}
+                       /\ \A c \in DOMAIN a.c : /\ c \in DOMAIN o[a.t].isf /\ o[a.t].isf[c]
+                                                 /\ c \in DOMAIN p[a.t].isf /\ p[a.t].isf[c]
       Requested(a) == /\ IsRec(a) /\ a.t \in DOMAIN req /\ a.t \notin sums
                       /\ \/ a.n = "BulkRemoveRecord"
                          \/ a.n = "BulkAddRecord" /\ \E c \in DOMAIN a.c : c \in {req[a.t][k] : k \in 1..Len(req[a.t])}
